@@ -33,6 +33,7 @@ import (
 func TestMain(m *testing.M) {
 	worker.Register("c19v2", v2Worker)
 	worker.Register("c19dag", dagSeqWorker)
+	worker.Register("c19iso", isoWorker)
 	worker.Main(m)
 }
 
@@ -72,6 +73,9 @@ type entry struct {
 	// hangGroup: entry points that drive the same code underneath (e.g. the response cache). A hang there leaves a goroutine spinning and a lock held;
 	// once one hang of the group is confirmed, the entry points of the group stop feeding inputs (further expiries are only counted).
 	hangGroup string
+	// isolate: the calls run in a child process (iso_test.go): input numbers can become allocation sizes there, and a failed allocation / exhausted stack
+	// is a fatal error of the runtime that no recover() sees. The child's exit while an input is outstanding is attributed to that input.
+	isolate bool
 }
 
 type stats struct {
@@ -342,7 +346,10 @@ func (h *harness) one(e *entry, st *stats, in input) {
 	st.mu.Unlock()
 	fingerprint := e.name + "|" + strings.Join(in.ops, "+")
 	var hp httpPanic
-	if !o.panicked && !o.timeout && errors.As(o.err, &hp) {
+	var cp childPanic
+	if !o.panicked && !o.timeout && errors.As(o.err, &cp) {
+		o = cp.o // panicked (recovered) in the child process of an isolated entry point, or the child ended while evaluating the input
+	} else if !o.panicked && !o.timeout && errors.As(o.err, &hp) {
 		// the handler panicked on the server side of the HTTP connection
 		o = outcome{panicked: true, pval: firstLineWith(hp.report, "panic serving"), stack: tailStr(hp.report, 6000)}
 		o.pfunc, o.repo = stackTextSite(hp.report)
@@ -578,7 +585,7 @@ func TestCheck(t *testing.T) {
 	r.Assume("inputs are those reachable by the listed operators from the harness' valid instances; a silent run says nothing about other inputs")
 	r.Assume("a watchdog expiry (20s) is a hang only when the same input expires 3 more times with nothing else running and then also does not return within 150s alone; otherwise inconclusive (slow input)")
 	r.Assume("time in the status list sequences is virtual: the stored copy ages by moving the created_at/expires columns of its row; cache entries expire through the caching headers (max-age=0, Expires before Date), never by waiting")
-	r.Assume("unrecoverable runtime errors (stack exhaustion, out of memory) in in-process entry points would abort the check as BROKEN with the input left in replay/C19/current/")
+	r.Assume("unrecoverable runtime errors (stack exhaustion, out of memory) are observed where the entry point runs in a child process (v2 protocol, DAG sequences, the presentation definition entry points pe.Definition.* and pe.Grid.*: exit of the child while an input is outstanding = violation attributed to that input); in the other in-process entry points they would abort the check as BROKEN with the input left in replay/C19/current/")
 
 	if prof := os.Getenv("VERIF_C19_MEMPROF"); prof != "" {
 		// development aid: heap profile when the heap grows beyond 4 GiB
@@ -609,6 +616,8 @@ func TestCheck(t *testing.T) {
 	var entries []*entry
 	if part("entries") {
 		entries = allEntries(h)
+		isolate(h, entries)
+		defer isoShutdown()
 		if i := strings.IndexByte(only, ','); i >= 0 {
 			var keep []*entry
 			for _, e := range entries {
